@@ -61,9 +61,9 @@ func (c *Ctx) guardsOf(fn *ssa.Function) *guardInfo {
 				}
 				if ifi, ok := p.Instrs[len(p.Instrs)-1].(*ssa.If); ok && p.Succs[0] != p.Succs[1] {
 					if p.Succs[0] == b {
-						addCondFacts(out, ifi.Cond, true)
+						g.addCondFacts(out, ifi.Cond, true, 0)
 					} else if p.Succs[1] == b {
-						addCondFacts(out, ifi.Cond, false)
+						g.addCondFacts(out, ifi.Cond, false, 0)
 					}
 				}
 				if first {
@@ -97,11 +97,43 @@ func (c *Ctx) guardsOf(fn *ssa.Function) *guardInfo {
 	return g
 }
 
-// addCondFacts records cond==pol, looking through boolean negation.
-func addCondFacts(m map[fact]bool, cond ssa.Value, pol bool) {
+// addCondFacts records cond==pol, looking through boolean negation and through the phi nodes that
+// go/ssa builds for `a && b` / `a || b` used as values (tag-less switch cases): when every constant
+// edge of the phi has the opposite value, the phi having value pol means control came through the one
+// non-constant edge, so that edge's value and the facts holding in its predecessor hold too.
+func (g *guardInfo) addCondFacts(m map[fact]bool, cond ssa.Value, pol bool, depth int) {
 	m[fact{cond, pol}] = true
-	if u, ok := cond.(*ssa.UnOp); ok && u.Op == token.NOT {
-		addCondFacts(m, u.X, !pol)
+	if depth > 6 {
+		return
+	}
+	switch x := cond.(type) {
+	case *ssa.UnOp:
+		if x.Op == token.NOT {
+			g.addCondFacts(m, x.X, !pol, depth+1)
+		}
+	case *ssa.Phi:
+		nonConst := -1
+		for i, e := range x.Edges {
+			k, ok := e.(*ssa.Const)
+			if !ok {
+				if nonConst >= 0 {
+					return
+				}
+				nonConst = i
+				continue
+			}
+			if k.Value == nil || k.Value.Kind() != constant.Bool || constant.BoolVal(k.Value) == pol {
+				return
+			}
+		}
+		if nonConst < 0 {
+			return
+		}
+		g.addCondFacts(m, x.Edges[nonConst], pol, depth+1)
+		q := x.Block().Preds[nonConst]
+		for f := range g.in[q] {
+			m[f] = true
+		}
 	}
 }
 
@@ -369,26 +401,52 @@ type edge struct {
 	succ int
 }
 
-func reachableAvoiding(fn *ssa.Function, target *ssa.BasicBlock, cut func(from *ssa.BasicBlock, succIdx int) bool) bool {
+func reachableAvoiding(fn *ssa.Function, target *ssa.BasicBlock, cut func(from *ssa.BasicBlock, succIdx int, cond ssa.Value) bool) bool {
 	return reachableFromAvoiding(fn.Blocks[0], target, cut)
 }
 
-func reachableFromAvoiding(start, target *ssa.BasicBlock, cut func(from *ssa.BasicBlock, succIdx int) bool) bool {
-	seen := map[*ssa.BasicBlock]bool{start: true}
-	stack := []*ssa.BasicBlock{start}
+// The search runs over (block, incoming edge) states so that an If on a phi of the same block is
+// resolved per incoming edge: a constant edge decides the branch, a non-constant edge becomes the
+// effective condition handed to cut.
+func reachableFromAvoiding(start, target *ssa.BasicBlock, cut func(from *ssa.BasicBlock, succIdx int, cond ssa.Value) bool) bool {
+	type st struct {
+		b    *ssa.BasicBlock
+		pred int
+	}
+	seen := map[st]bool{{start, -1}: true}
+	stack := []st{{start, -1}}
 	for len(stack) > 0 {
-		b := stack[len(stack)-1]
+		cur := stack[len(stack)-1]
 		stack = stack[:len(stack)-1]
+		b := cur.b
 		if b == target {
 			return true
 		}
+		cond := ifCond(b)
+		if phi, ok := cond.(*ssa.Phi); ok && phi.Block() == b && cur.pred >= 0 && cur.pred < len(phi.Edges) {
+			cond = phi.Edges[cur.pred]
+		}
 		for i, s := range b.Succs {
-			if cut != nil && cut(b, i) {
-				continue
+			if cond != nil {
+				if k, ok := cond.(*ssa.Const); ok && k.Value != nil && k.Value.Kind() == constant.Bool {
+					if constant.BoolVal(k.Value) != (i == 0) {
+						continue // infeasible for this incoming edge
+					}
+				} else if cut != nil && cut(b, i, cond) {
+					continue
+				}
 			}
-			if !seen[s] {
-				seen[s] = true
-				stack = append(stack, s)
+			pi := -1
+			for j, p := range s.Preds {
+				if p == b {
+					pi = j
+					break
+				}
+			}
+			n := st{s, pi}
+			if !seen[n] {
+				seen[n] = true
+				stack = append(stack, n)
 			}
 		}
 	}
